@@ -252,4 +252,43 @@ func suiteQuorum(c *Ctx) {
 			c.Class("committee-buffer-reused")
 		}
 	}
+	// committees of more than 64 members: duplicates of members at high positions, subsets of the tail only
+	big := 12
+	if c.Thorough() {
+		big = 300
+	}
+	for it := 0; it < big; it++ {
+		n := 65 + r.Intn(70)
+		ms := make([]interfaces.CommitteeMember, n)
+		for i := range ms {
+			ms[i] = interfaces.CommitteeMember{Id: []byte{0x31, byte(i), byte(i >> 8), byte(it)}, Weight: primitives.MemberWeight(1 + r.Intn(3))}
+		}
+		var subs [][]primitives.MemberId
+		hi := ms[64+r.Intn(n-64)].Id
+		var rep []primitives.MemberId
+		for k := 0; k < 3+r.Intn(2*n); k++ {
+			rep = append(rep, hi)
+		}
+		subs = append(subs, rep)
+		var tail []primitives.MemberId
+		for i := 60; i < n; i++ {
+			tail = append(tail, ms[i].Id)
+			if r.Intn(3) == 0 {
+				tail = append(tail, ms[i].Id)
+			}
+		}
+		subs = append(subs, tail)
+		var head []primitives.MemberId
+		for i := 0; i < n-r.Intn(n/3+1); i++ {
+			head = append(head, ms[i].Id)
+		}
+		subs = append(subs, head)
+		for _, sub := range subs {
+			ok1, w1, q1 := quorum.IsQuorum(sub, ms)
+			h1, hw1, hb1 := quorum.HasHonest(sub, ms)
+			c.Emit(fmt.Sprintf("isq %s %s", fmtIds(sub), fmtMembers(ms)), fmt.Sprintf("%s %d %d", b2s(ok1), w1, q1))
+			c.Emit(fmt.Sprintf("hon %s %s", fmtIds(sub), fmtMembers(ms)), fmt.Sprintf("%s %d %d", b2s(h1), hw1, hb1))
+		}
+		c.Class("committee-above-64")
+	}
 }
